@@ -32,7 +32,8 @@ Strict(a, b) ==
          [] a.t \in {"list", "map"} -> IF Len(a.es) # Len(b.es) THEN "no" ELSE StrictSeq(a.es, b.es, 1)
 
 Verdict(a, b, feq) ==
-  CASE a.t = "nil" \/ b.t = "nil" -> IF a.t = b.t THEN "yes" ELSE "no"          \* nil equals only nil
+  CASE (a.t = "nil" /\ a.s # "" /\ b.t \in {"list", "map"}) \/ (b.t = "nil" /\ b.s # "" /\ a.t \in {"list", "map"}) -> "open"   \* a nil slice / map of a concrete type against a container: not stated
+    [] a.t = "nil" \/ b.t = "nil" -> IF a.t = b.t THEN "yes" ELSE "no"          \* nil equals only nil (a nil channel, function, slice, map or pointer is nil)
     [] a.t = "bool" /\ b.t = "bool" -> IF a.l = b.l THEN "yes" ELSE "no"
     [] a.t = "bool" \/ b.t = "bool" -> "open"                                     \* bool vs non-bool: not stated
     [] a.t = "str" /\ b.t = "str" -> IF a.s = b.s THEN "yes" ELSE "no"            \* same primitive type: Go's ==
